@@ -65,8 +65,26 @@ def rule_t1(ctx, tf: TextFlow) -> None:
             )
 
 
-def rule_t2(ctx, pl: Pipeline) -> None:
-    ctx.rule("C02-T2", "input_reaction has a single writer: a copy of the reaction column taken right after atom-map removal", 2)
+def _only_map_removal(ctx, f, e, rc: str, env, depth: int = 0, busy=frozenset()) -> bool:
+    """`e` is the reaction column of a frame, possibly with remove_atom_mapping applied element-wise (`.map` / `.apply`)"""
+    from ..util import assignments_to
+
+    if depth > 4:
+        return False
+    if isinstance(e, ast.Subscript) and not isinstance(e.slice, ast.Slice):
+        return texts(ctx.ev.eval(e.slice, env)) == {rc}
+    if isinstance(e, ast.Call) and isinstance(e.func, ast.Attribute) and e.func.attr in ("map", "apply") and len(e.args) == 1 and not e.keywords:
+        return unparse(e.args[0]).split(".")[-1] == "remove_atom_mapping" and _only_map_removal(ctx, f, e.func.value, rc, env, depth + 1, busy)
+    if isinstance(e, ast.Name):
+        if e.id in busy:
+            return True  # `x = x.map(..)`: the name itself, already being judged
+        defs = assignments_to(f, e.id)
+        return bool(defs) and all(i is None and _only_map_removal(ctx, f, v, rc, env, depth + 1, busy | {e.id}) for _s, v, i in defs)
+    return False
+
+
+def rule_t2(ctx, pl: Pipeline, rule_id: str = "C02-T2") -> None:
+    ctx.rule(rule_id, "input_reaction has a single writer: a copy of the reaction column taken right after atom-map removal", 2)
     inp = pl.input_col.text
     writers = []
     for st in pl.stages:
@@ -85,13 +103,13 @@ def rule_t2(ctx, pl: Pipeline) -> None:
         okw = st is not None and st.index == 0 and w.func.qualname == "synrbl.preprocess.preprocess"
         v = w.value
         copy_ok = isinstance(v, ast.Subscript) and texts(ctx.ev.eval(v.slice, st.env if st else None)) == {pl.reaction_col.text} if okw else False
-        ctx.instance("C02-T2", "writer of %r: %s in %s" % (inp, unparse(w.node)[:60], w.func.qualname.split("synrbl.", 1)[-1]), w.where(), ok=okw and copy_ok)
+        ctx.instance(rule_id, "writer of %r: %s in %s" % (inp, unparse(w.node)[:60], w.func.qualname.split("synrbl.", 1)[-1]), w.where(), ok=okw and copy_ok)
         if not okw:
-            ctx.finding("C02-T2", "%s:writes-input_reaction" % w.func.qualname.split("synrbl.", 1)[-1], w.where(), "the recorded input is written outside preprocess: %s" % unparse(w.node)[:60])
+            ctx.finding(rule_id, "%s:writes-input_reaction" % w.func.qualname.split("synrbl.", 1)[-1], w.where(), "the recorded input is written outside preprocess: %s" % unparse(w.node)[:60])
         elif not copy_ok:
-            ctx.finding("C02-T2", "preprocess.preprocess:input-copy", w.where(), "input_reaction is not a plain copy of the reaction column (%s)" % unparse(v)[:50])
+            ctx.finding(rule_id, "preprocess.preprocess:input-copy", w.where(), "input_reaction is not a plain copy of the reaction column (%s)" % unparse(v)[:50])
     if len(writers) != 1:
-        ctx.finding("C02-T2", "input_reaction:writers", writers[0][1].where(), "input_reaction has %d writers" % len(writers))
+        ctx.finding(rule_id, "input_reaction:writers", writers[0][1].where(), "input_reaction has %d writers" % len(writers))
     # between the atom-map removal and the copy nothing else writes the reaction column
     st0 = pl.stages[0]
     f = st0.callee
@@ -100,12 +118,17 @@ def rule_t2(ctx, pl: Pipeline) -> None:
     other = []
     for ks in st0.frame_stores:
         if rc in ks.keytexts and copy_line is not None and ks.node.lineno < copy_line:
+            v_ = getattr(ks, "value", None)
+            if isinstance(v_, ast.Call) and unparse(v_.func).endswith("remove_atom_mapping"):
+                continue  # the map removal itself, applied to a copy of the row
+            if v_ is not None and _only_map_removal(ctx, f, v_, rc, st0.env):
+                continue  # the column itself, with the map removal applied element-wise
             other.append(ks)
     row_writes = [s for s in st0.stores if rc in s.keytexts]
     ok = copy_line is not None and not other and all(isinstance(s.value, ast.Call) and unparse(s.value.func).endswith("remove_atom_mapping") for s in row_writes)
-    ctx.instance("C02-T2", "only the atom-map removal writes the reaction before the input is recorded", f.loc(), ok=ok)
+    ctx.instance(rule_id, "only the atom-map removal writes the reaction before the input is recorded", f.loc(), ok=ok)
     if not ok:
-        ctx.finding("C02-T2", "preprocess.preprocess:edit-before-record", f.loc(), "the reaction column is edited by something other than atom-map removal before input_reaction is recorded")
+        ctx.finding(rule_id, "preprocess.preprocess:edit-before-record", f.loc(), "the reaction column is edited by something other than atom-map removal before input_reaction is recorded")
 
 
 def rule_t3(ctx, tf: TextFlow) -> None:
@@ -283,3 +306,8 @@ def check(ctx) -> None:
 
     c12.rule_k1(ctx, "C02-T7")
     rule_t8(ctx)
+    # T9: the only rewrite the pipeline applies to the given text before it is recorded - atom-map removal - keeps every
+    # molecule (shared with C15-Rg1/Rg2)
+    from . import c15
+
+    c15.rule_rg1_rg2(ctx, "C02-T9", "C02-T9")
